@@ -849,7 +849,7 @@ def sweep_values(r, key: str):
         return [jv(x) for x in r.choice(ENABLED_SWEEPS)]
     if r.random() < 0.7:
         return [jv(1), jv(2)]
-    return [jv(x) for x in r.choice([["1", "2"], [0.5, 4], ["3", 7], [1, 2, 3], ["0.25", 2]])]
+    return [jv(x) for x in r.choice([["1", "2"], [0.5, 4], ["3", 7], [1, 2, 3], ["0.25", 2], [0, 1], [0.0, 2], ["0", 3]])]
 
 
 def run_variant(r, c):
@@ -889,6 +889,12 @@ def exhaustive_flag_cases(ctx: Ctx):
             if pre:
                 c["pre"] = [pre]
             cases.append(run_variant(r, c))
+    # sweeps over an undeclared argument called like a method of the Mapping class (it exists, so validate_steps lets it
+    # pass — C08-validate-nonsetting — but the sweep itself must fail before any model runs)
+    for name in ("values", "items", "update"):
+        c = dict(op="validate", det="ccd", pipe=pipe_with(True), keys=[f"pipeline.{g}.{n}.arguments.{name}"], kinds=["nonsetting"],
+                 step_enabled=[True], values=[[jv(1), jv(2)]])
+        cases.append(run_variant(r, c))
     for vs in ENABLED_SWEEPS:
         for flag in (True, jv(1)):
             c = dict(op="validate", det="ccd", pipe=pipe_with(flag), keys=[f"pipeline.{g}.{n}.enabled"], kinds=["enabled_flag"],
@@ -1417,21 +1423,33 @@ def run(ctx: Ctx):
         ctx.broken.append(Broken("translation", "translator/c08.py (copy policy of derived processors, setter guards)", str(ex)))
         ctx.log(f"translation failed (continuing with the fallback table): {ex}")
         gen = {"Gen_C08.v": tr.FALLBACK}
-    core.proof_leg(ctx, gen, PROP_FILE)
+    import os, time
+    t0 = [time.time()]
 
+    def stage(name):
+        if os.environ.get("C08_TIMING"):
+            ctx.log(f"stage {name}: {time.time() - t0[0]:.1f}s")
+        t0[0] = time.time()
+
+    core.proof_leg(ctx, gen, PROP_FILE)
+    stage("proof")
     load_names(ctx)
-    set_cases = exhaustive_valid_cases(ctx) + exhaustive_class_attr_cases(ctx) + gen_set_cases(ctx, ctx.budget(int(__import__('os').environ.get('C08_N', 600)), 4000))
+    set_cases = exhaustive_valid_cases(ctx) + exhaustive_class_attr_cases(ctx) + gen_set_cases(ctx, ctx.budget(int(__import__("os").environ.get("C08_N", 540)), 4000))
     pairs, nm = leg_set(ctx, set_cases)
+    stage(f"set ({len(set_cases)} cases)")
     dcases = exhaustive_derive_cases(ctx) + gen_derive_cases(ctx, ctx.budget(240, 1600))
     dpairs, dnm, leads = leg_derive(ctx, dcases)
     nm += dnm
     if leads and not new_violations(ctx):
         _, dnm2, _ = leg_derive(ctx, directed_derive_cases(ctx, leads), tag="wd")
         nm += dnm2
+    stage(f"derive ({len(dcases)} cases)")
     texts = gen_eval_cases(ctx, ctx.budget(900, 6000))
     triples = leg_eval(ctx, texts)
-    vcases = exhaustive_flag_cases(ctx) + gen_validate_cases(ctx, ctx.budget(240, 1500))
+    stage(f"eval ({len(texts)} texts)")
+    vcases = exhaustive_flag_cases(ctx) + gen_validate_cases(ctx, ctx.budget(210, 1500))
     vpairs = leg_validate(ctx, vcases)
+    stage(f"validate ({len(vcases)} cases, {sum(1 for c in vcases if c.get('run'))} run)")
 
     distinct = {(c["det"], c["key"], json.dumps(c["value"], sort_keys=True), json.dumps(c["pipe"], sort_keys=True)) for c, o in pairs
                 if c["kind"] != "valid" or o["set"] is None}
